@@ -218,10 +218,13 @@ def docToks (y : YDoc) : List Token :=
 /-- further facts about the tables (true of the tables of the build: `Rox.Props.C03`) -/
 structure TablesCanon4 (T : Tables) : Prop where
   ws_is_space : ∀ b : UInt8, b ∈ [9, 10, 13, 32] → byteIsSpace T b = true
-  quest_not_name : byteIsName T 63 = false
   quest_not_space : byteIsSpace T 63 = false
-  bang_not_nameStart : byteIsNameStart T 33 = false
-  /-- the characters of `version="1.0" encoding="UTF-8"` outside names -/
-  decl_chars_xml : ∀ b : UInt8, b ∈ [49, 46, 48, 85, 84, 70, 45, 56] → charIsXmlChar T b.toNat = true
+  /-- no printable ASCII character other than the space is white space (the first byte of a PI value) -/
+  plain_not_space : ∀ b : UInt8, isPlain b = true → b ≠ 32 → byteIsSpace T b = false
+  /-- `consume_name` / `skip_name` (PI target, DOCTYPE name) work on characters -/
+  lower_nameStartC : ∀ b : UInt8, isLower b = true → charIsNameStart T b.toNat = true
+  lower_nameC : ∀ b : UInt8, isLower b = true → charIsName T b.toNat = true
+  /-- what ends a PI target (space, `?`) or the DOCTYPE name (`>`) -/
+  stops_not_nameC : ∀ b : UInt8, b ∈ [32, 62, 63] → charIsName T b.toNat = false
 
 end Rox.Spec.Canon4
